@@ -280,15 +280,15 @@ LATER = {
            "client (family XN); two threads failing at once while the first handler invocation is still running (XT); sink "
            "errors whose payload is one of the crate's own MetricErrors.  The position of with_error_handler in the client builder chain varies with the case.",
     "C06": "Also: the writer histories - fault histories included - driven through a StatsdClient over a user-written buffered "
-           "sink (family CW: send_metric(&Counter::from(text)), StatsdClient::flush).  The clauses proved for every fault script (exactly once, order, own emit, a flush that returns Ok has written everything acknowledged before it, flushing again writes nothing) are evaluated on the fault histories of family CW too; metrics ending in LF or in the terminator's own bytes.",
+           "sink (family CW: send_metric(&Counter::from(text)), StatsdClient::flush).  The clauses proved for every fault script (exactly once, order, own emit, a flush that returns Ok has written everything acknowledged before it, flushing again writes nothing) are evaluated on the fault histories of family CW too; metrics ending in LF or in the terminator's own bytes.  The queuing wrapper of family QF is built by from / the builder with a handler / with capacity and handler in both orders; a non-blocking Unix socket whose listener falls behind and reads again (XW).",
     "C07": "Also: family CW (histories through StatsdClient) and family UR (the real UDP sinks over a socket connected to a "
            "closed port: ECONNREFUSED on every other send, then a listener appears) - every call must return.  Outages in which the listener's socket file stays (ECONNREFUSED), family c.",
     "C10": "Also: the usize an accepted emit returns is the metric's byte length (non-ASCII payloads); the bound of large "
-           "queues (capacities 70 000, 2^20, 2^20+3: worker parked, capacity + k emits, exactly capacity accepted).",
-    "C11": "Also: unbroken runs of 17-70 panics; a panic soak of 28 000 panics over the life of one sink (own process).",
+           "queues (capacities 70 000, 2^20, 2^20+3: worker parked, capacity + k emits, exactly capacity accepted).  An unbounded queue with its worker parked accepts more than 2^21 metrics (QB u).",
+    "C11": "Also: unbroken runs of 17-70 panics; a panic soak of 28 000 panics over the life of one sink (own process).  The same metric text emitted repeatedly (payload shape d) around panics and failures.",
     "C13": "Also: statistics read in the middle of a history (op s: reading puts nothing on the wire), UDP sockets connected "
            "to a closed port (family UR); capacities above one IPv4 datagram (an emit that fits the configured capacity puts "
-           "nothing on the wire); Unix paths that cannot be socket addresses (family XL).  Unix paths that are not valid UTF-8 with a second listener at the lossy name (families XN / BXN).  Outages with the socket file left behind (op c); emits made by a destructor of an unwinding thread (op P); an IPv4 sender whose first resolved address is IPv6 (UA4); address arguments that yield no address (UE).",
+           "nothing on the wire); Unix paths that cannot be socket addresses (family XL).  Unix paths that are not valid UTF-8 with a second listener at the lossy name (families XN / BXN).  Outages with the socket file left behind (op c); emits made by a destructor of an unwinding thread (op P); an IPv4 sender whose first resolved address is IPv6 (UA4); address arguments that yield no address (UE).  65 508 / 65 527-byte metrics to an IPv6 listener (UO6); recovery after WouldBlock (XW).",
     "C14": "Also: statistics read in the middle of a history equal the figures of the datagrams received so far; families UR "
            "and XL (sends refused before they reach the OS are dropped packets too).  Family UA4 (every send to an unreachable first address is one dropped packet; the second address is no fallback).",
     "C02": "Also: the value section of every standalone constructor's text against the canonical numeral; Display of every "
@@ -301,7 +301,7 @@ LATER = {
            "released too.  Producers that are worker threads of a queuing sink (family QW: chained sinks, a handler emitting through a clone).",
     "C09": "Also: family QD (two queuing sinks in one process: the other one full with its stop marker pending for the whole "
            "history).",
-    "C12": "Also: calls made by a destructor while the calling thread unwinds from a caught panic (ops G / g).",
+    "C12": "Also: calls made by a destructor while the calling thread unwinds from a caught panic (ops G / g).  The shared buffer under real back-pressure (sock family XW, buffered: WouldBlock, then recovery).",
     "C15": "Also: soaks of 8-12 producers released together by a barrier (lost updates of a counter need overlapping increments).  The counters at the quiescent end of the panic soaks.",
     "C16": "Also: a wrapped sink that answers Ok(0) (accepted: the handler stays silent); an unscripted flush of the wrapped "
            "sink answers with an error of its own (a worker that flushes shows up in the handler's record); failures that carry a "
